@@ -3,8 +3,111 @@ module go.minekube.com/gate/pkg/edition/java/proxy/verifh
 go 1.26
 
 require (
-	go.minekube.com/gate v0.0.0
+	github.com/Tnze/go-mc v1.20.2
 	github.com/anishathalye/porcupine v1.3.0
+	github.com/go-logr/logr v1.4.3
+	go.minekube.com/common v0.4.0
+	go.minekube.com/gate v0.0.0
+	gopkg.in/yaml.v3 v3.0.1
+)
+
+require (
+	buf.build/gen/go/minekube/connect/protocolbuffers/go v1.36.10-20240220124425-904ce30425c9.1 // indirect
+	connectrpc.com/connect v1.20.0 // indirect
+	connectrpc.com/otelconnect v0.9.0 // indirect
+	github.com/agext/levenshtein v1.2.3 // indirect
+	github.com/cenkalti/backoff/v5 v5.0.3 // indirect
+	github.com/cespare/xxhash/v2 v2.3.0 // indirect
+	github.com/coder/websocket v1.8.15 // indirect
+	github.com/cpuguy83/go-md2man/v2 v2.0.7
+	github.com/davecgh/go-spew v1.1.2-0.20180830191138-d8f796af33cc // indirect
+	github.com/dboslee/lru v0.0.1 // indirect
+	github.com/ebitengine/purego v0.10.2 // indirect
+	github.com/edwingeng/deque/v2 v2.1.1 // indirect
+	github.com/emirpasic/gods v1.18.1 // indirect
+	github.com/felixge/httpsnoop v1.0.4 // indirect
+	github.com/francoispqt/gojay v1.2.13 // indirect
+	github.com/fsnotify/fsnotify v1.9.0
+	github.com/gammazero/deque v1.2.1 // indirect
+	github.com/go-faker/faker/v4 v4.9.0
+	github.com/go-gl/mathgl v1.1.0
+	github.com/go-logr/stdr v1.2.2 // indirect
+	github.com/go-logr/zapr v1.3.0
+	github.com/go-ole/go-ole v1.3.0
+	github.com/go-viper/mapstructure/v2 v2.4.0 // indirect
+	github.com/golang/groupcache v0.0.0-20241129210726-2c02b8208cf8 // indirect
+	github.com/golang/snappy v0.0.4
+	github.com/google/uuid v1.6.0 // indirect
+	github.com/gookit/color v1.6.1
+	github.com/grpc-ecosystem/grpc-gateway/v2 v2.27.3
+	github.com/honeycombio/otel-config-go v1.17.0 // indirect
+	github.com/jellydator/ttlcache/v3 v3.4.1 // indirect
+	github.com/klauspost/compress v1.18.0
+	github.com/lucasb-eyer/go-colorful v1.4.0 // indirect
+	github.com/lufia/plan9stats v0.0.0-20250827001030-24949be3fa54
+	github.com/nfnt/resize v0.0.0-20180221191011-83c6a9932646 // indirect
+	github.com/pelletier/go-toml/v2 v2.2.4 // indirect
+	github.com/pires/go-proxyproto v0.13.0
+	github.com/pmezard/go-difflib v1.0.1-0.20181226105442-5d4384ee4fb2
+	github.com/power-devops/perfstat v0.0.0-20240221224432-82ca36839d55
+	github.com/robinbraemer/event v0.1.1
+	github.com/rs/xid v1.6.0 // indirect
+	github.com/russross/blackfriday/v2 v2.1.0
+	github.com/sagikazarmark/locafero v0.12.0 // indirect
+	github.com/sandertv/go-raknet v1.13.0
+	github.com/sandertv/gophertunnel v1.37.0
+	github.com/segmentio/fasthash v1.0.3 // indirect
+	github.com/sethvargo/go-envconfig v1.3.0 // indirect
+	github.com/shirou/gopsutil/v4 v4.25.9 // indirect
+	github.com/spf13/afero v1.15.0 // indirect
+	github.com/spf13/cast v1.10.0 // indirect
+	github.com/spf13/pflag v1.0.10 // indirect
+	github.com/spf13/viper v1.21.0 // indirect
+	github.com/stretchr/testify v1.11.1
+	github.com/subosito/gotenv v1.6.0 // indirect
+	github.com/tklauser/go-sysconf v0.3.15 // indirect
+	github.com/tklauser/numcpus v0.10.0 // indirect
+	github.com/urfave/cli/v2 v2.27.7
+	github.com/xo/terminfo v0.0.0-20220910002029-abceb7e1c41e
+	github.com/xrash/smetrics v0.0.0-20250705151800-55b8f293f342
+	github.com/yusufpapurcu/wmi v1.2.4
+	github.com/zyedidia/generic v1.2.1 // indirect
+	go.minekube.com/brigodier v0.0.2
+	go.minekube.com/connect v0.6.3-0.20260803141147-8001cda93b1d // indirect
+	go.minekube.com/geyserlite v0.5.1 // indirect
+	go.minekube.com/vialite v0.3.0 // indirect
+	go.opentelemetry.io/auto/sdk v1.2.1 // indirect
+	go.opentelemetry.io/contrib/instrumentation/host v0.63.0 // indirect
+	go.opentelemetry.io/contrib/instrumentation/net/http/otelhttp v0.69.0 // indirect
+	go.opentelemetry.io/contrib/instrumentation/runtime v0.63.0 // indirect
+	go.opentelemetry.io/contrib/propagators/b3 v1.38.0 // indirect
+	go.opentelemetry.io/contrib/propagators/ot v1.38.0 // indirect
+	go.opentelemetry.io/otel v1.44.0 // indirect
+	go.opentelemetry.io/otel/exporters/otlp/otlpmetric/otlpmetricgrpc v1.38.0 // indirect
+	go.opentelemetry.io/otel/exporters/otlp/otlpmetric/otlpmetrichttp v1.38.0 // indirect
+	go.opentelemetry.io/otel/exporters/otlp/otlptrace v1.38.0 // indirect
+	go.opentelemetry.io/otel/exporters/otlp/otlptrace/otlptracegrpc v1.38.0 // indirect
+	go.opentelemetry.io/otel/exporters/otlp/otlptrace/otlptracehttp v1.38.0 // indirect
+	go.opentelemetry.io/otel/metric v1.44.0 // indirect
+	go.opentelemetry.io/otel/sdk v1.44.0 // indirect
+	go.opentelemetry.io/otel/sdk/metric v1.44.0 // indirect
+	go.opentelemetry.io/otel/trace v1.44.0 // indirect
+	go.opentelemetry.io/proto/otlp v1.8.0 // indirect
+	go.uber.org/atomic v1.11.0 // indirect
+	go.uber.org/multierr v1.11.0 // indirect
+	go.uber.org/zap v1.28.0
+	go.yaml.in/yaml/v3 v3.0.4 // indirect
+	golang.org/x/exp v0.0.0-20260611194520-c48552f49976 // indirect
+	golang.org/x/image v0.18.0
+	golang.org/x/net v0.53.0 // indirect
+	golang.org/x/sync v0.21.0 // indirect
+	golang.org/x/sys v0.45.0 // indirect
+	golang.org/x/text v0.38.0 // indirect
+	golang.org/x/time v0.14.0 // indirect
+	google.golang.org/genproto/googleapis/api v0.0.0-20260414002931-afd174a4e478
+	google.golang.org/genproto/googleapis/rpc v0.0.0-20260414002931-afd174a4e478
+	google.golang.org/grpc v1.82.1 // indirect
+	google.golang.org/protobuf v1.36.11 // indirect
 )
 
 replace go.minekube.com/gate => /repo
